@@ -64,6 +64,10 @@ def make_pred(task):
 
     def pred(case, ctx):
         c = _cp(case)
+        if task in ("segment", "hierarchy", "beat", "melody"):
+            c["time_scale"] = None      # the optimum (label entropy / which queries exist / beats after trimming / voiced frames after resampling) is computed on the exact lattice
+        elif c.get("time_scale"):
+            ctx.event("off_lattice_times")
         kw = c["kw"]
         ref = c["ref"]
         want = None
